@@ -8,21 +8,26 @@ per-operator demand lemmas and the composed bound.
 O: pulls <= need + 1 and applications per lambda <= need + 1 with a Python twin of `need`; the searches pull
 exactly up to the deciding element.  Watchdog: the source raises after CAP pulls and every evaluation runs
 under an alarm, so a non-streaming rewrite is REPORTED instead of hanging."""
+import collections.abc
 import json
 import os
+import time
 
 import gal
 import streams_common as sc
 
 GEN = []
-RULE = ("the source reaches the query in 11 ways (one-shot iterator or RE-ITERABLE lazy object; as $ / inside the data document / "
+RULE = ("the source reaches the query in 15 ways (one-shot iterator, RE-ITERABLE lazy object, or lazy SEQUENCE - a "
+        "collections.abc.Sequence of 10**6 elements fetched and counted in __getitem__, delivered unconverted; as $ / inside the data document / "
         "context variable / result of a registered host function; yaql.convertInputData on and off), a fixed set of pipelines "
         "through all of them and every other case through one of them in rotation; every pipeline also in SPLIT form (a prefix of "
         "the chain - the source itself or the result of any streaming operator - bound by let (keyword, positional, several "
         "bindings) / with / a def'd function / lambda(..)(..) / a lambda held in a variable, 1..3 bindings chained, and the chain "
         "continued through the variable: values, pulls and lambda applications must be those of the unsplit chain); selectMany "
         "with LAZY groups (sequence($), range($), $.repeat(), a second instrumented host iterator in a context variable bare or "
-        "under select / where - its pulls and lambda applications are counted too); corpus; per-function grid (each streaming function alone over the endless source, every integer argument in "
+        "under select / where - its pulls and lambda applications are counted too); yaql.limitIterators = 2..6, 40, 120 over the "
+        "one-shot iterator and over re-iterable sources (only __iter__, a fresh generator per call; endless and finite) that reach "
+        "the operators unconverted, pulls summed over all iterators handed out; corpus; per-function grid (each streaming function alone over the endless source, every integer argument in "
         "[-3, 6], k in 0..5); seeded random typed pipelines of 1..4 streaming functions, start value in [-3, 3], "
         "k in 0..8; pipelines ending in first/any/all/indexOf/indexWhere/contains; non-trivial = at least one result "
         "requested and at least one function; distinct = distinct (start, stages, k)")
@@ -32,6 +37,8 @@ TRUSTED = ["Model/Streams.v: hand transcription of the lazy objects of queries.p
 ASSUMPTIONS = ["the way a lazy source is handed to the query (data, document member, context variable, host function result, "
                "with or without input conversion, iterator or re-iterable) does not enter the model: the consumption must be the same",
                "lambda bodies come from the generated family and are applied to integers / pairs they are defined on",
+               "insert on a lazy SEQUENCE is the (eager) list function by overload resolution: pipelines with insert are fed the "
+               "re-iterable object instead; Python range objects cannot be instrumented and are not used",
                "after an endless group that is not instrumented (sequence($), $.repeat()) only operators that hand every element "
                "on are generated (a filter that never matches would spin without touching any instrumented source); such cases run "
                "under an address-space ceiling so that a materialising implementation ends in MemoryError",
@@ -71,18 +78,45 @@ class Feed:
     """the same endless source as a RE-ITERABLE object (a cursor / paginated result): no __next__, every
     __iter__ starts a fresh lazy generator; all pulls are counted on the one object and capped"""
 
-    def __init__(self, k0, records=False):
-        self.k0, self.pulls, self.records = k0, 0, records
+    def __init__(self, k0, records=False, length=None):
+        self.k0, self.pulls, self.records, self.length = k0, 0, records, length
+        self.iters, self.ended = 0, 0          # iterators handed out / of them run to the end (finite feeds)
 
     def __iter__(self):
+        self.iters += 1
         i = 0
-        while True:
+        while self.length is None or i < self.length:
             self.pulls += 1
             if self.pulls > CAP:
                 raise PullCap()
             v = self.k0 + i
             i += 1
             yield {"a": v, "b": 0} if self.records else v
+        self.ended += 1
+
+
+class LazySeq(collections.abc.Sequence):
+    """a lazy / virtual SEQUENCE (paged result set, memory-mapped column): a million elements k0, k0+1, ... that exist only
+    when __getitem__ fetches them; every fetch is counted and capped like a pull"""
+
+    def __init__(self, k0, records=False):
+        self.k0, self.pulls, self.records = k0, 0, records
+
+    def __len__(self):
+        return 10 ** 6
+
+    def __getitem__(self, i):
+        if isinstance(i, slice):
+            return [self[j] for j in range(*i.indices(len(self)))]
+        if i < 0:
+            i += len(self)
+        if not 0 <= i < len(self):
+            raise IndexError(i)
+        self.pulls += 1
+        if self.pulls > CAP:
+            raise PullCap()
+        v = self.k0 + i
+        return {"a": v, "b": 0} if self.records else v
 
 
 class MemoryGuard:
@@ -145,6 +179,11 @@ MODES = {
     "raw-iter": ("$", "iter", "data", False),            # yaql.convertInputData = False
     "raw-feed": ("$", "feed", "data", False),
     "rawdoc-feed": ("$.src", "feed", "doc", False),
+    # a lazy SEQUENCE, delivered unconverted (input conversion legitimately copies a Sequence into a yaql list)
+    "var-seq": ("$feed", "seq", "var", True),
+    "fn-seq": ("feed()", "seq", "fn", True),
+    "raw-seq": ("$", "seq", "data", False),
+    "rawdoc-seq": ("$.src", "seq", "doc", False),
 }
 MODE_NAMES = sorted(MODES)
 
@@ -180,8 +219,11 @@ def fix_mode(stages, mode):
     """assert / defaultIfEmpty look at the first element and hand the collection on: a RE-ITERABLE object that reaches
     them unconverted is legitimately traversed from the start a second time, so these two are fed one-shot iterators"""
     base, splits = split_mode(mode)
-    if any(s[0] in ("assertAny", "defaultIfEmpty") for s in stages) and base in ("var-feed", "fn-feed", "raw-feed", "rawdoc-feed"):
-        base = base.replace("rawdoc-feed", "doc-iter").replace("-feed", "-iter")
+    if any(s[0] in ("assertAny", "defaultIfEmpty") for s in stages) and base in ("var-feed", "fn-feed", "raw-feed", "rawdoc-feed",
+                                                                                 "var-seq", "fn-seq", "raw-seq", "rawdoc-seq"):
+        base = base.replace("rawdoc-feed", "doc-iter").replace("rawdoc-seq", "doc-iter").replace("-feed", "-iter").replace("-seq", "-iter")
+    if base.endswith("-seq") and any(s[0] == "insert" for s in stages):
+        base = base.replace("-seq", "-feed")      # insert on a Sequence receiver is the (eager) LIST function, not the streaming one
     return join_mode(base, splits)
 
 
@@ -221,7 +263,7 @@ def text_of(stages, k, mode="data-iter", conv="camel"):
 def _run_once(k0, stages, k, mode, timeout, conv="camel"):
     root, shape, where, convert = MODES[split_mode(mode)[0]]
     recs = bool(stages) and stages[0][0] == "attr"      # member projection: the source yields records {a: n, b: 0}
-    src = (Source if shape == "iter" else Feed)(k0, recs)
+    src = {"iter": Source, "feed": Feed, "seq": LazySeq}[shape](k0, recs)
     sc.TICKS.clear()
     text = text_of(stages, k, mode, conv)
     delegates = any(f in DELEGATE_FORMS for f, _ in split_mode(mode)[1])
@@ -499,7 +541,8 @@ def describe(k0, stages, k, o, pulls, ticks, text, mode="data-iter"):
     root, shape, where, conv = MODES[base]
     return {"yaql": text, "split": "; ".join("%s after %d stage(s)" % s for s in splits) or "single dotted chain",
             "source": "instrumented endless %s %d, %d, ... handed over as %s (%s), yaql.convertInputData=%s" % (
-                "one-shot iterator" if shape == "iter" else "RE-ITERABLE lazy object (no __next__; __iter__ starts a fresh generator)",
+                "one-shot iterator" if shape == "iter" else "lazy SEQUENCE (collections.abc.Sequence of 10**6 elements fetched by __getitem__)"
+                if shape == "seq" else "RE-ITERABLE lazy object (no __next__; __iter__ starts a fresh generator)",
                 k0, k0 + 1, root, {"data": "the query data", "doc": "a member of the data document", "var": "a context variable",
                                    "fn": "the result of a registered host function"}[where], conv),
             "mode": mode, "k0": k0,
@@ -553,7 +596,10 @@ def correspondence(run):
     nfixed = len(todo) - run.n(2500, 40000)
     for j, (k0, stages, k, mode) in enumerate(todo):
         mode = fix_mode(stages, mode)
+        t0 = time.time()
         o, pulls, ticks, per, text = observe(k0, stages, k, mode)
+        if time.time() - t0 > 5:
+            run.note("slow case (%.0fs): %s [%s] -> %r" % (time.time() - t0, text, mode, o[:2]))
         if j >= nfixed and o[0] == "cap" and run.rng.random() < 0.8:
             run.count("dropped:most pipelines that never produce k results (cap) are not kept")
             continue
@@ -598,36 +644,69 @@ def correspondence(run):
     limit_block(run)
 
 
+LIMIT_SOURCES = ["iter", "iter", "feed-var", "feed-raw", "feed-fn", "finite-var", "finite-raw", "finite-fn"]
+
+
+def limit_observe(n, k0, stages, k, kind):
+    """yaql.limitIterators = n; the source: the one-shot iterator as $, or a RE-ITERABLE object (only __iter__, a fresh
+    generator per call; endless, or finite with FINITE elements) delivered unconverted: context variable / $ with
+    convertInputData=false / host function result.  Pulls are summed over ALL iterators the source handed out."""
+    shape, _, where = kind.partition("-")
+    src = Source(k0) if shape == "iter" else Feed(k0, length=FINITE if shape == "finite" else None)
+    sc.TICKS.clear()
+    root = {"": "$", "var": "$feed", "raw": "$", "fn": "feed()"}[where]
+    text = "%s.take(%d)" % (sc.pipeline_text(root, stages, probe=True), k)
+    ctx = sc.context().create_child_context()
+    if where == "var":
+        ctx["feed"] = src
+    elif where == "fn":
+        ctx.register_function(lambda: src, name="feed")
+    o = sc.evaluate(text, src if where in ("", "raw") else None, timeout=30, ctx=ctx,
+                    eng=sc.engine_opts(limit=n, quota=(k0 + k) % 2 == 0, noconv=where == "raw"))     # the limit alone and with a quota
+    return o, src, sum(sc.TICKS.values()), text
+
+
+FINITE = 150
+
+
+def lk_term(n, k0, stages, k, o, pulls, ticks):
+    cap = o[0] == "err" and ("PullCap" in o[2] or "watchdog" in o[2])
+    ob = "OCap" if cap else sc.obs_gal(o if o[0] != "err" else ("err", o[1]))
+    return "{| lk_lim := %s; lk_start := %s; lk_stages := %s; lk_take := %s; lk_vals := %s; lk_pulls := %s; lk_ticks := %s |}" % (
+        gal.nat(n), gal.z(k0), gal.lst(sc.stage_gal(x) for x in stages), gal.nat(k), ob, gal.nat(min(pulls, 4000)), gal.nat(min(ticks, 4000)))
+
+
 def limit_block(run):
     """yaql.limitIterators = n over the instrumented endless source: the limiter is lazy (one pull per element, the
-    (n+1)-th pulled and refused) - values, pulls and lambda applications against Model/Streams.v eval_case_lim"""
+    (n+1)-th pulled and refused) - values, pulls and lambda applications against Model/Streams.v eval_case_lim; the source
+    is a one-shot iterator or a re-iterable lazy object (endless / finite) that reaches the operators unconverted"""
     cases, meta = [], []
-    for _ in range(run.n(300, 4000)):
-        n = run.rng.randrange(2, 7)
+    for j in range(run.n(400, 5000)):
+        n = run.rng.choice([2, 3, 4, 5, 6, 6, 40, 120])
         k0 = run.rng.randrange(-3, 4)
-        stages = sc.gen_lim_stages(run.rng, n, terminal=False)
-        k = run.rng.randrange(0, n + 2)
-        src = Source(k0)
-        sc.TICKS.clear()
-        text = "%s.take(%d)" % (sc.pipeline_text("$", stages, probe=True), k)
-        o = sc.evaluate(text, src, timeout=30, eng=sc.engine_opts(limit=n, quota=(k0 + k) % 2 == 0))     # the limit alone and with a quota
-        ticks = sum(sc.TICKS.values())
-        cap = o[0] == "err" and ("PullCap" in o[2] or "watchdog" in o[2])
-        run.case(("limit", n, k0, sc.stages_json(stages), k), nontrivial=k > 0)
+        stages = sc.gen_lim_stages(run.rng, min(n, 6), terminal=False)
+        k = run.rng.randrange(0, min(n, 6) + 2)
+        kind = LIMIT_SOURCES[j % len(LIMIT_SOURCES)]
+        o, src, ticks, text = limit_observe(n, k0, stages, k, kind)
+        if kind.startswith("finite") and src.ended and src.iters == 1:
+            run.count("dropped:the finite source was legitimately read to its end in one pass (the model's source is endless)")
+            continue
+        run.case(("limit", n, k0, sc.stages_json(stages), k, kind), nontrivial=k > 0)
         run.count("limit:n=%d" % n)
+        run.count("limit-source:" + kind)
+        cap = o[0] == "err" and ("PullCap" in o[2] or "watchdog" in o[2])
         run.count("limit-result:" + ("cap" if cap else o[1] if o[0] == "err" else o[0]))
-        ob = "OCap" if cap else sc.obs_gal(o if o[0] != "err" else ("err", o[1]))
-        cases.append("{| lk_lim := %s; lk_start := %s; lk_stages := %s; lk_take := %s; lk_vals := %s; lk_pulls := %s; lk_ticks := %s |}" % (
-            gal.nat(n), gal.z(k0), gal.lst(sc.stage_gal(x) for x in stages), gal.nat(k), ob, gal.nat(min(src.pulls, 4000)), gal.nat(min(ticks, 4000))))
-        meta.append((n, k0, stages, k, text, o, src.pulls, ticks))
+        cases.append(lk_term(n, k0, stages, k, o, src.pulls, ticks))
+        meta.append((n, k0, stages, k, text, o, src.pulls, ticks, kind))
     bad = run.coq_mismatches(sc.HEADER, "lkcase", "lkcase_ok", cases, shard=400)
     for i in bad[:3]:
-        n, k0, stages, k, text, o, pulls, ticks = meta[i]
-        run.fail("violation", "yaql.limitIterators=%d: %s: values / pulls / lambda applications differ from the reference model" % (
-            n, "/".join(x[0] for x in stages)),
+        n, k0, stages, k, text, o, pulls, ticks, kind = meta[i]
+        run.fail("violation", "yaql.limitIterators=%d: %s [source: %s]: values / pulls / lambda applications differ from the reference model" % (
+            n, "/".join(x[0] for x in stages), kind),
                  {"kind": "limit", "limit": n, "yaql": text, "k0": k0, "stages": sc.stages_json(stages), "k": k, "observed": repr(o),
-                  "pulls": pulls, "ticks": ticks, "theorems": ["C14_limit"],
-                  "requires": "the limiter passes elements through one for one and refuses the (n+1)-th"})
+                  "source": kind, "pulls": pulls, "ticks": ticks, "theorems": ["C14_limit"],
+                  "requires": "the limiter passes elements through one for one and refuses the (n+1)-th; a re-iterable source is "
+                              "opened once and read only as far as the results need (pulls summed over all its iterators)"})
 
 
 def shrink(run, k0, stages, k, mode="data-iter"):
@@ -746,14 +825,8 @@ def replay(run, data):
     if d.get("kind") == "limit":
         n, k0, stages, k = d["limit"], d["k0"], sc.stages_from_json(d["stages"]), d["k"]
         sc.context()
-        src = Source(k0)
-        sc.TICKS.clear()
-        o = sc.evaluate("%s.take(%d)" % (sc.pipeline_text("$", stages, probe=True), k), src, timeout=30, eng=sc.engine_with_limit(n))
-        ticks = sum(sc.TICKS.values())
-        ob = sc.obs_gal(o if o[0] != "err" else ("err", o[1]))
-        term = "{| lk_lim := %s; lk_start := %s; lk_stages := %s; lk_take := %s; lk_vals := %s; lk_pulls := %s; lk_ticks := %s |}" % (
-            gal.nat(n), gal.z(k0), gal.lst(sc.stage_gal(x) for x in stages), gal.nat(k), ob, gal.nat(min(src.pulls, 4000)), gal.nat(min(ticks, 4000)))
-        return not run.coq_mismatches(sc.HEADER, "lkcase", "lkcase_ok", [term])
+        o, src, ticks, text = limit_observe(n, k0, stages, k, d.get("source", "iter"))
+        return not run.coq_mismatches(sc.HEADER, "lkcase", "lkcase_ok", [lk_term(n, k0, stages, k, o, src.pulls, ticks)])
     k0, stages, k, mode = d["k0"], sc.stages_from_json(d["stages"]), d["k"], d.get("mode", "data-iter")
     sc.context()
     o, pulls, ticks, per, text = observe(k0, stages, k, mode)
